@@ -306,6 +306,20 @@ func runHsFaultScenario(seed int64, idx int) *scenario {
 			}
 		}
 	}
+	// a 200 reply to CONNECT with bytes glued behind it (a banner, coalesced tunnel data): whatever the
+	// dial makes of it, a failed dial closes the connection
+	if cfg.proxy {
+		for _, rep := range []string{"HTTP/1.1 200 Connection established\r\n\r\nX", "HTTP/1.1 200 OK\r\n\r\n220 banner\r\n"} {
+			t, c, err, p := runHandshake(cfg, -1, "", rep)
+			if p != "" {
+				sc.violate("CONNECT reply %q: panic %s", rep, p)
+				continue
+			}
+			if (err != nil || c == nil) && t.closed == 0 {
+				sc.violate("CONNECT reply %q: the dial failed (%v) and left the connection to the proxy open", rep, err)
+			}
+		}
+	}
 	// the credentials sent are those of the proxy URL at the time of the dial: the same URL object dialled
 	// again after its userinfo was changed, reduced to a user name, or removed
 	if cfg.proxy {
